@@ -290,6 +290,23 @@ class Scenario(object):
         unk = {"unk": ["unknown", {"rw_uri": UNK_RW, "ro_uri": UNK_RO}]}
         self.ok(w.http("POST", R + "?t=set_children", json.dumps(unk).encode()), "unknown child")
 
+    # ---- another user of the same gateway holds the tree open through its write caps: node objects built
+    # from write caps (and the children a writeable directory hands out, built from both slots) stay referenced
+    # while read-only requests are served.  The node cache is weak: without a holder they die at once.
+    def hold_write_nodes(self):
+        c = self.g.client(0)
+        held = []
+        for o in sorted(self.objs.values(), key=lambda o: o.id):
+            if not (o.live and o.rw and o.kind in ("dir", "file")):
+                continue
+            n = c.create_node_from_uri(o.rw.encode())
+            held.append(n)
+            if o.kind == "dir":
+                out = self.g.run(n.list(), outcome=True)
+                if out.status == "ok":
+                    held.append(out.value)          # name -> (child node, metadata)
+        return held
+
     # ---- abstract mirror: walk every directory with the strongest cap the driver holds
     def snapshot(self):
         for o in self.objs.values():
@@ -792,6 +809,8 @@ def scenario(run, si):
         scn.snapshot()
         quick = not (ctx.tier == "thorough" or ctx.search)
         # ---- phase A: every operation through every authority that is not writeable
+        held = scn.hold_write_nodes()
+        ctx.count("write-cap-nodes-held-during-readonly-phase", len(held))
         addrs = addresses(scn)
         for addr in addrs:
             got = scn.walk(addr.cap, addr.path)
@@ -833,6 +852,7 @@ def scenario(run, si):
             ctx.oracle_fail("private-tree-without-token", "GET /private/logs/v1 without the API token answered %s" % r.status,
                             expected=401, observed=r.status)
         # ---- phase B: the same operations with write authority go through
+        del held
         done = set()
         for rounds in range(3):
             addrs = [ad for ad in addresses(scn) if ad.kind in ("path-from-rw-root", "write-cap")]
@@ -891,6 +911,7 @@ def scenario(run, si):
             do_request(run, scn, si, addr, op, [other.ro], False, "dir/relink-into-readonly")
         # ---- phase C: read-only authority again, now that nodes built from write caps have been used and are
         # still referenced (operation handles): a cached writeable node must not answer for a read cap
+        held = scn.hold_write_nodes()
         addrs = [ad for ad in addresses(scn) if ad.kind in ("read-cap", "path-from-ro-root", "verify-cap")]
         rng.shuffle(addrs)
         budget = 40 if quick else 200
@@ -912,6 +933,7 @@ def scenario(run, si):
                 do_request(run, scn, si, addr, op, pres, False, tdesc)
                 budget -= 1
             leak_gets(run, scn, si, addr, o, a, [addr.cap])
+        del held
         ctx.count("http-requests", web.requests)
         for e in g.logged_errors:
             ctx.count("logged:" + str(e)[:60])
